@@ -28,6 +28,9 @@ var (
 	mkLzwR   = markerType("symgoLzwReader")
 )
 
+// poisonByte marks storage overwritten by a failed AEAD.Open whose dst aliased the ciphertext.
+var poisonByte = Var("poison_byte", 8)
+
 type markerCall struct {
 	kind   string
 	method string
@@ -106,6 +109,12 @@ func (p *Path) callMarker(th *thread, caller *frame, pos token.Pos, mc *markerCa
 		if len(ct) < 16 {
 			return TupleVal{SliceVal{Nil: true}, p.opaqueErr("cipher: message authentication failed")}
 		}
+		for _, b := range ct {
+			if b == poisonByte {
+				// a ciphertext overwritten by an earlier failed Open never authenticates (ideal model)
+				return TupleVal{SliceVal{Nil: true}, p.opaqueErr("cipher: message authentication failed")}
+			}
+		}
 		for _, r := range p.sealsT {
 			if len(r.ct) != len(ct) {
 				continue
@@ -114,6 +123,17 @@ func (p *Path) callMarker(th *thread, caller *frame, pos token.Pos, mc *markerCa
 			if p.branch(c) {
 				p.cover("engine.aead.open.genuine")
 				return TupleVal{mkByteSlice(append([]*Term{}, r.pt...)), IfaceVal{}}
+			}
+		}
+		// documented contract of cipher.AEAD.Open: "Even if the function fails, the contents of dst, up to its
+		// capacity, may be overwritten" - when dst reuses the ciphertext's storage the ciphertext is destroyed
+		if dsl, ok := args[1].(SliceVal); ok && !dsl.Nil && len(dsl.Back) > 0 {
+			csl := args[3].(SliceVal)
+			if len(csl.Back) > 0 && &dsl.Back[0] == &csl.Back[0] {
+				for i := 0; i < len(dsl.Back); i++ {
+					dsl.Back[i] = poisonByte
+				}
+				p.note("stub: a failed AEAD.Open overwrites dst (documented); dst aliased the ciphertext here")
 			}
 		}
 		if p.aeadTamper && p.choose(2) == 1 {
